@@ -5,7 +5,7 @@ from mc.monitors2 import Triggers, TriggerReplay
 
 LEVEL = 'model_checking'
 NAMES = ['W_trig']
-D = W.depths_for(NAMES, quick=2, thorough=4)
+D = W.depths_for(NAMES, quick=2, thorough=3)
 P = HistProp('C15', lambda t: W.make(NAMES), lambda w, t: [Triggers(), TriggerReplay()], D,
              rule='all histories over W_trig, whose trigger formulas are all `(value or 0)+1` so each '
                   'cell counts its own recalculations; three-valued reference model per (row, '
